@@ -463,7 +463,20 @@ def own_property(pid, tier, seed, replay):
                 if l.split(";values=")[0] in want:
                     print("now:", l)
         return 0
+    # static half: the ownership records regenerated from the source (translator), the theorems of
+    # Props/C16 are stated over them
+    ok_t, tout, tdt = run_translator()
+    evidence["translator_s"] = round(tdt, 1)
+    if not ok_t:
+        violations.append(dict(kind="translator", what="translator failed", detail=tout))
     lean_ok, n_obl, n_dis = lean_obligations(pid, pid, evidence, violations)
+    static_bad = []
+    rows, rout = static_report() if ok_t else (None, tout)
+    if rows is None:
+        violations.append(dict(kind="obligation", what="static report does not build", detail=rout[-2000:]))
+    else:
+        static_bad = [r for r in rows if pid in r["property"].split(",") and r["offending"]]
+        evidence["static_rules"] = [dict(rule=r["rule"], offending=r["offending"]) for r in rows if pid in r["property"].split(",")]
     t1 = time.time()
     okb, bout, _ = build_harness()
     evidence["harness_build_s"] = round(time.time() - t1, 1)
@@ -476,7 +489,10 @@ def own_property(pid, tier, seed, replay):
         lines = [l for l in p.stdout.splitlines() if l.strip()]
         if p.returncode != 0:
             crashed = dict(rc=p.returncode, stderr=p.stderr[-2000:], last_line=(lines[-1] if lines else None))
-        if lean_ok and lines:
+        # the model driver does not depend on the theorem modules: a broken proof obligation must not
+        # hide what the drop-counting run finds
+        drv_ok = lean_ok or lean_build(["hlv-driver"])[0]
+        if drv_ok and lines:
             q = subprocess.run([drv, "drops"], input="\n".join(lines) + "\n", stdout=subprocess.PIPE,
                                stderr=subprocess.STDOUT, text=True)
             verdicts = q.stdout.splitlines()
@@ -487,8 +503,10 @@ def own_property(pid, tier, seed, replay):
     # the harness enumerates a fixed list of shapes x paths; a run that printed fewer lines than the
     # registered minimum means a path crashed or was skipped
     MIN_LINES = 440
-    if fails or crashed:
-        payload = dict(property=pid, kind="direct violation: the real crate dropped a payload zero or several times, or returned values at other than their declared positions",
+    if fails or crashed or static_bad:
+        payload = dict(property=pid, kind="direct violation: the real crate dropped a payload zero or several times, or returned values at other than their declared positions"
+                       + (" / the ownership records extracted from the source break a rule of the ownership model (static_rules: the offending functions)" if static_bad else ""),
+                       static_rules=[dict(rule=r["rule"], offending=r["offending"]) for r in static_bad],
                        lines=[l for l, _ in fails[:40]], why=[v for _, v in fails[:40]], crash=crashed,
                        replay_cmd=f"./check {pid} --replay <this file>  (rebuilds the harness against /repo and re-prints these lines)")
         pth = write_replay(pid, "direct", payload)
@@ -505,15 +523,17 @@ def own_property(pid, tier, seed, replay):
     wall = time.time() - t0
     ev = dict(property_id=pid, tier=tier, seed=seed, level="proof",
               coverage=dict(obligations=max(n_obl, 1), discharged=n_dis if n_obl else 0,
-                            checker_cmd=f"cd lean && lake build HLV.Props.{pid} hlv-driver; #print axioms of every registered theorem; harness/bin/drops (real crate, drop-counting payloads) | hlv-driver drops",
+                            checker_cmd=f"translator /repo/src -> lean/HLV/Generated/Facts.lean; cd lean && lake build HLV.Props.{pid} hlv-driver; #print axioms of every registered theorem; harness/bin/drops (real crate, drop-counting payloads) | hlv-driver drops",
                             trusted_base=["Lean 4.33 kernel", "axioms: propext, Classical.choice, Quot.sound only",
-                                          "the hand-written ownership model HLV/Model/Own.lean (MemOp programs for BoxedLockCollection new/drop/into_child; VTree build/setPos/flatten for value positions), tied to the code by the drops correspondence run",
+                                          "the ownership model HLV/Model/Own.lean (heap-cell operations for BoxedLockCollection, fill loops for the MaybeUninit arrays, VTree build/setPos/flatten for value positions); the operation sequences are regenerated from the source by the translator (FnDef.own: the calls of every function that touches an ownership-sensitive primitive, in evaluation order) and read by HLV/Static/OwnRules.lean; positions and drop counts are tied to the code by the drops correspondence run",
+                                          "safe Rust's guarantee that code free of ownership-sensitive primitives drops every value exactly once (the table theorem shows which functions contain such primitives)",
                                           "the drop-counting harness harness/src/bin/drops.rs; Rust's own drop glue for tuples/arrays/Vec is not modelled (taken as exactly-once)"],
                             programs=len(lines), disagreements_checked=len(verdicts), evaluations=len(lines),
                             distinct_nontrivial=len(shapes),
                             rule="one program per (owned shape, API path): construct, optionally get_mut/write under lock, consume by into_inner/into_child/into_iter/drop; non-trivial = distinct shapes",
                             samples=lines[:3] + lines[-3:] if lines else ["(none)"],
                             shape_count=len(shapes), path_kinds=paths, exhaustive=True,
+                            static_rules=evidence.get("static_rules", []),
                             theorems=evidence.get("theorems", []),
                             timings={k: v for k, v in evidence.items() if k.endswith("_s")}),
               assumptions=["memory safety proper (no UB) is outside what the model exhibits: the harness observes drop counts and values only; run under Miri in the thorough tier when available",
